@@ -201,6 +201,10 @@ func (st *provState) compute(v ssa.Value) string {
 	case *ssa.Alloc:
 		return "alloc:" + x.Name() + "@" + x.Parent().Name() + ":" + x.Comment
 	case *ssa.FieldAddr:
+		if a, ok := x.X.(*ssa.Alloc); ok {
+			// field of a local struct: a by-value parameter copy or a literal
+			return st.loadAlloc(a) + "." + fieldName(x.X.Type(), x.Field)
+		}
 		return st.path(x.X) + "." + fieldName(x.X.Type(), x.Field)
 	case *ssa.Field:
 		return st.path(x.X) + "." + fieldName(x.X.Type(), x.Field)
@@ -260,6 +264,10 @@ func (st *provState) compute(v ssa.Value) string {
 						es = append(es, st.path(e))
 					}
 					return "[" + strings.Join(es, ",") + "]"
+				}
+				// whole-array local sliced (hash[:]): the stored array value
+				if a := x.X.(*ssa.Alloc); len(StoresTo(a)) > 0 {
+					return st.loadAlloc(a)
 				}
 			}
 			return st.path(x.X)
@@ -561,4 +569,9 @@ func ConstStr(v ssa.Value) (string, bool) {
 func IsNilConst(v ssa.Value) bool {
 	c, ok := v.(*ssa.Const)
 	return ok && c.Value == nil
+}
+
+// ConstVal returns the int64 value of a types.Const.
+func ConstVal(c *types.Const) (int64, bool) {
+	return constant.Int64Val(c.Val())
 }
